@@ -637,6 +637,9 @@ func (d *driver) writeReplay(res *TrialResult, min, orig []uint32, probe string)
 		rf.Active = append(rf.Active, k.ID)
 	}
 	name := fmt.Sprintf("%s-%s-seed%d-trial%d-%08x.json", d.prop, d.tier, d.seed, res.Trial, hashStr(res.Violation.Signature)&0xffffffff)
+	if rf.Probe != "" {
+		name = fmt.Sprintf("%s-probe-%s.json", d.prop, rf.Probe)
+	}
 	path := filepath.Join(dir, name)
 	b, _ := json.MarshalIndent(rf, "", " ")
 	if err := os.WriteFile(path, b, 0644); err != nil {
